@@ -123,7 +123,10 @@ func hostProd(prefix string, h func(v *Val) *Host, small bool) []field {
 	return []field{
 		{prefix + ".Protocol", 8, proto, func(v *Val) uint32 { return uint32(h(v).Proto) }, func(v *Val, x uint32) { h(v).Proto = uint8(x) }, prefix},
 		{prefix + ".Address", 32, addr,
-			func(v *Val) uint32 { a := h(v).Addr; return uint32(a[0])<<24 | uint32(a[1])<<16 | uint32(a[2])<<8 | uint32(a[3]) },
+			func(v *Val) uint32 {
+				a := h(v).Addr
+				return uint32(a[0])<<24 | uint32(a[1])<<16 | uint32(a[2])<<8 | uint32(a[3])
+			},
 			func(v *Val, x uint32) { h(v).Addr = [4]byte{byte(x >> 24), byte(x >> 16), byte(x >> 8), byte(x)} }, prefix},
 		{prefix + ".Port", 16, port, func(v *Val) uint32 { return uint32(h(v).Port) }, func(v *Val, x uint32) { h(v).Port = uint16(x) }, prefix},
 	}
@@ -515,16 +518,17 @@ func shapeSpaces(sh shape, thorough bool) []*space {
 				switch {
 				case f.bits+g.bits == 16:
 					n8++
+					s.add(freshPairs, false, vd, rangeDim(f, base), rangeDim(g, base))
 				case f.bits+g.bits == 24 && f.group == g.group:
+					// 2^24 points per pair: one variant per pair, taken in rotation
+					one := variantDim(sh.variants[n816%len(sh.variants) : n816%len(sh.variants)+1])
 					n816++
-				default:
-					continue
+					s.add(freshPairs, false, one, rangeDim(f, base), rangeDim(g, base))
 				}
-				s.add(freshPairs, false, vd, rangeDim(f, base), rangeDim(g, base))
 			}
 		}
-		s.note = fmt.Sprintf("variants [%s] x complete product of the full ranges of every pair of 8-bit fields (%d pairs) and of every 8-bit x 16-bit pair inside one structure (%d pairs), the other fields at the base value; 16-bit x 16-bit pairs are covered by the boundary product only",
-			variantNames(sh.variants), n8, n816)
+		s.note = fmt.Sprintf("variants [%s] x complete product of the full ranges of every pair of 8-bit fields (%d pairs, every variant) and of every 8-bit x 16-bit pair inside one structure (%d pairs; with several variants the k-th such pair is run on variant k mod %d), the other fields at the base value; 16-bit x 16-bit pairs are covered by the boundary product only",
+			variantNames(sh.variants), n8, n816, len(sh.variants))
 		if len(s.blocks) > 0 {
 			out = append(out, s)
 		}
